@@ -32,6 +32,7 @@ func init() {
 			need(m, &out, "sections_of_maximal_length", 20)
 			need(m, &out, "outcome_error_or_nothing", 50000)
 			need(m, &out, "muxer_sections_checked", 2000)
+			need(m, &out, "self_similar_sections", 1500)
 			need(m, &out, "written_psi_sections_checked", 300)
 			for _, k := range []string{"PAT", "PMT", "NIT", "SDT", "EIT", "TOT"} {
 				need(m, &out, "flips_in_"+k, 2000)
@@ -235,7 +236,94 @@ func maxSizeSections(c *mon.Ctx) {
 	}
 }
 
+// selfSimilarCase: a valid section that holds, at the place where a smaller section_length would put the CRC_32, exactly the CRC_32 of
+// the section cut there (with that smaller length in its header). The original is valid and must be delivered unmodified; with the
+// section_length rewritten to the smaller value — a single flipped bit when the two values differ in one bit — the checksum still
+// matches, and what the demuxer makes of it must be what the reference decoder makes of it (a table cut short of its mandatory fields
+// or in the middle of a loop entry is no table).
+func selfSimilarCase(c *mon.Ctx, idx int64, r *rand.Rand) {
+	kind := kindsAll[idx%6]
+	for tries := 0; tries < 30; tries++ {
+		cu := newC09Unit(r, kind, 1, 14+r.IntN(260))
+		p := append([]byte{}, cu.u.Payload...)
+		o := 1 + int(p[0])
+		L := int(p[o+1]&0xf)<<8 | int(p[o+2])
+		// candidate smaller lengths: single-bit clears first, then any value
+		var cands []int
+		for b := 0; b < 12; b++ {
+			if L&(1<<b) != 0 && L&^(1<<b) >= 4 {
+				cands = append(cands, L&^(1<<b))
+			}
+		}
+		single := len(cands) > 0 && idx%3 != 2
+		if !single {
+			cands = []int{4 + r.IntN(L-4)}
+		}
+		L2 := cands[r.IntN(len(cands))]
+		q := o + 3 + L2 - 4 // where the CRC of the shorter section sits
+		if q+4 > o+3+L-4 {
+			continue // would overlap the real CRC
+		}
+		cut := append([]byte{}, p[o:q]...)
+		cut[1] = cut[1]&0xf0 | byte(L2>>8)
+		cut[2] = byte(L2)
+		crc := refts.CRC32(cut)
+		p[q], p[q+1], p[q+2], p[q+3] = byte(crc>>24), byte(crc>>16), byte(crc>>8), byte(crc)
+		e := o + 3 + L
+		full := refts.CRC32(p[o : e-4])
+		p[e-4], p[e-3], p[e-2], p[e-1] = byte(full>>24), byte(full>>16), byte(full>>8), byte(full)
+		// still a valid section for the reference? (the four bytes may have hit a field with reserved values or a loop length)
+		onWire := append([]byte{}, p...)
+		for len(onWire)%184 != 0 {
+			onWire = append(onWire, 0xff)
+		}
+		_, secs, _ := refts.DecodeUnit(onWire)
+		if len(secs) != 1 || secs[0].Err != nil || secs[0].Section == nil || secs[0].Section.Syntax == nil {
+			c.Count("self_similar_candidates_not_valid")
+			continue
+		}
+		cu.u = &gen.Unit{PID: cu.u.PID, Kind: gen.UnitPSI, Payload: p, Sections: []*astits.PSISection{secs[0].Section}}
+		// the four bytes may have put a field outside the domain of the table generators (a date before 1900-03-01, time digits that
+		// are not BCD), where library and reference read the valid section differently: the fidelity of valid sections is C13's
+		// subject and is judged there on its own generators; this stage needs an original both sides agree on
+		if run := RunDemux(cu.stream(p), baseCfg("data")); run.Panic == "" {
+			var got []*astits.DemuxerData
+			for _, d := range run.Datas() {
+				if d.PID == cu.pid {
+					cp := *d
+					cp.FirstPacket = nil
+					got = append(got, &cp)
+				}
+			}
+			sd := secs[0].Section.Syntax.Data
+			want := &astits.DemuxerData{PID: cu.pid, PAT: sd.PAT, PMT: sd.PMT, NIT: sd.NIT, SDT: sd.SDT, EIT: sd.EIT, TOT: sd.TOT}
+			if len(got) != 1 || mon.Diff(got[0], want, nil) != "" {
+				c.Count("self_similar_candidates_outside_the_generators_domain")
+				continue
+			}
+		}
+		cu.judge(c, "self-similar", idx, p, "none", false)
+		sh := append([]byte{}, p...)
+		sh[o+1] = sh[o+1]&0xf0 | byte(L2>>8)
+		sh[o+2] = byte(L2)
+		cls := "length-rewrite-self-similar"
+		if single {
+			cls = "bitflip-length-self-similar"
+		}
+		cu.judge(c, "self-similar", idx, sh, cls, true)
+		c.Count("self_similar_sections")
+		c.Count("self_similar_" + kind.String())
+		c.Case(mon.HashBytes("c09ss", sh), true)
+		return
+	}
+}
+
 func runC09(c *mon.Ctx) {
+	for i := int64(0); i < c.Pick(3000, 300000); i++ {
+		if c.Mine("self-similar", i) {
+			selfSimilarCase(c, i, c.Rng("self-similar", i))
+		}
+	}
 	enduranceSessions(c, func(stage string, i int64, shape string, hr *HistRun) {
 		checkMuxedTables(c, stage, i, hr)
 	})
@@ -499,6 +587,10 @@ func muxSections(c *mon.Ctx, idx int64, r *rand.Rand) {
 	ops = append(ops, HOp{Kind: "pcr", PID: 0x40}, HOp{Kind: "tables"})
 	if r.IntN(2) == 0 {
 		ops = append(ops, HOp{Kind: "remove", PID: uint16(0x40 + nes - 1)}, HOp{Kind: "tables"})
+	}
+	if idx%16 == 3 {
+		ops = wrapPMTScenario(r)
+		c.Count("histories_with_a_pmt_of_65536_bytes")
 	}
 	hr := runHistory(ops, 10)
 	if !checkMuxedTables(c, "out", idx, hr) {
